@@ -141,7 +141,7 @@ var propSpecs = map[string]*propSpec{
 		NotDecided:  "prompt return of every post-close operation (depends on leveldb and the bus)."},
 	"C19": {ID: "C19", Rules: rr("R1", "R2", "R3", "R4", "R5"), Controls: []string{"R4"},
 		Explanation: "The status is written only by the recalculation helpers and reset only by Close (R1); the helpers are executed abstractly on every weak ordering of (arg, logLen, oldMax, progress, progress+1): neither value decreases and progress <= maximum is re-established (R2). Progress also ends at or above the log length on every order type.",
-		NotDecided:  "progress = maximum at rest; relation to Lamport times."},
+		NotDecided:  "relation to Lamport times; progress = maximum at rest beyond the paths R3/R4 cover (a failed fetch leaves the maximum raised)."},
 	"C20": {ID: "C20", Rules: []ruleRef{{Rule: "X1"}, {Rule: "X2"}, only("X3", "directchannel"), {Rule: "N2"}, only("N1", "directchannel"), except("G7", "replicator"), {Rule: "X4"}, {Rule: "X7"}, only("L5", "pubsub", "verifCtl")}, Controls: []string{"N2", "L5"},
 		Explanation: "All three subscription read loops deliver only on the sender ≠ self outcome (X1); the pairwise channel name is the join of the sorted pair {local, remote} (X2); frame writer/reader use matching varint codecs, the reader's bound check precedes allocation, the delivered buffer is the fully read one and is attributed to the stream's remote peer (X3, N1, N2). The membership snapshot is replaced on every successful diff (X4); frame slots are released on every path (G7).",
 		NotDecided:  "exactly-once of the polling membership diff; byte-for-byte delivery."},
